@@ -95,7 +95,13 @@ RULE = (
     "bool / int / float32 / negative-stride / strided / Fortran / read-only arrays, reversed and permuted selections queried "
     "themselves, every keyword spelling of get_localgrid and of the constructors, one centre / value / index array shared by "
     "several requests (guard bytes around a view), every rejected call in every position of a short history; corr and oracle run "
-    "as independent parts (run_parts): an exception in one part does not hide the findings of the others"
+    "as independent parts (run_parts): an exception in one part does not hide the findings of the others. Round 5 "
+    "(harness/props/c10_r5.py): plain grids of 1025 / 4097 / 20001 / 65537 (thorough 31234, 2^19+1) points, 1-D ones ascending / "
+    "descending / shuffled, against a per-point evaluation and additivity over a split; points / weights / centre / radius / "
+    "assigned values given directly as longdouble, float16, float32 and integer arrays or scalars (second call with the same "
+    "objects, arguments unchanged); the centre, the radius (0-d array), the index array and the value array edited in place "
+    "between two calls; two or three objects differing in one hidden dependency (same shape, reversed order, shared radial or "
+    "1-D grid object, node at r = 0, a grid and its selections) used alternately in either order"
 )
 TRUSTED_BASE = [
     "Lean 4.33 kernel; axioms propext, Classical.choice, Quot.sound only (audited per theorem)",
@@ -700,8 +706,9 @@ def run_parts(ctx, stage, parts):
 
 def corr(ctx: Ctx):
     M = _mods()
-    from . import c10_ext, c10_r4
-    run_parts(ctx, "corr", [("histories", lambda: _corr_histories(ctx, M))] + c10_ext.corr_parts(ctx, M) + c10_r4.corr_parts(ctx, M))
+    from . import c10_ext, c10_r4, c10_r5
+    run_parts(ctx, "corr", [("histories", lambda: _corr_histories(ctx, M))] + c10_ext.corr_parts(ctx, M) + c10_r4.corr_parts(ctx, M)
+              + c10_r5.corr_parts(ctx, M))
 
 
 def _corr_histories(ctx, M):
@@ -936,9 +943,9 @@ def _check_getitem(ctx, kind, g, ik, idx, pre, path):
 def oracle(ctx: Ctx, budget: str):
     M = _mods()
     ctx._M = M
-    from . import c10_ext, c10_r4
+    from . import c10_ext, c10_r4, c10_r5
     run_parts(ctx, "oracle", [("histories", lambda: _oracle_histories(ctx, M, budget))] + c10_ext.oracle_parts(ctx, M, budget)
-              + c10_r4.oracle_parts(ctx, M, budget))
+              + c10_r4.oracle_parts(ctx, M, budget) + c10_r5.oracle_parts(ctx, M, budget))
 
 
 def _oracle_histories(ctx, M, budget):
